@@ -37,6 +37,18 @@ def core(ctx):
         yield {"k": "popcount", "w": w, "tables": None}
     yield {"k": "ha"}
     yield {"k": "fa"}
+    # the same block requested again after the first copy was modified by its owner
+    for w in (3, 2, 3, 5, 5):
+        yield {"k": "adder", "w": w, "cin": False, "cout": w != 3, "tables": None}
+        yield {"k": "popcount", "w": w, "tables": None}
+        yield {"k": "mux", "w": w, "tables": None}
+    if ctx.tier == "thorough":
+        big = [(0x9E3779B97F4A7C15 * (i + 1)) & ((1 << 64) - 1) for i in range(140)]
+        for w in (130, 300):
+            yield {"k": "adder", "w": w, "cin": True, "cout": True, "tables": big}
+            yield {"k": "mux", "w": w, "tables": big}
+        for w in (257, 1100):
+            yield {"k": "popcount", "w": w, "tables": big}
     for lo in range(1, 4097, 256):
         yield {"k": "clog2", "ns": list(range(lo, lo + 256))}
     yield {"k": "clog2_bad", "ns": [0, -1, -7]}
@@ -101,6 +113,17 @@ def _lint_ok(c, what):
         raise Violation("reflint|" + what, f"{what}: block violates lint rules {v[:3]}")
 
 
+def _wreck(c):
+    """The caller owns a generated block and may do anything with it; later calls of the
+    generator must be unaffected (a generator must not hand out a shared object)."""
+    for n in list(c.graph.nodes)[::2]:
+        c.graph.remove_node(n)
+    for n in c.graph.nodes:
+        c.graph.nodes[n]["type"] = "buf"
+        c.graph.nodes[n]["output"] = True
+    c.name = "wrecked"
+
+
 def _bit(t, j):
     return (t >> j) & 1
 
@@ -133,6 +156,7 @@ def check(case, ctx):
                 raise Violation("adder|cout", f"adder w={w}: {a}+{b}+{ci} cout={_bit(val['cout'], j)}")
             if (a & b) or s >> w:
                 carry_seen = True
+        _wreck(c)
         return {"nontrivial": w >= 2 and carry_seen, "labels": ["adder", f"adder_w{'<=6' if w <= 6 else '>6'}"]}
     if k == "mux":
         w = case["w"]
@@ -159,6 +183,7 @@ def check(case, ctx):
                 big = True
             if _bit(val["out"], j) != exp:
                 raise Violation("mux|out", f"mux({w}) sel={sel}: out={_bit(val['out'], j)} expected {exp}")
+        _wreck(c)
         return {"nontrivial": w >= 2 and big, "labels": ["mux"]}
     if k == "popcount":
         w = case["w"]
@@ -187,6 +212,7 @@ def check(case, ctx):
                 two = True
             if got != cnt:
                 raise Violation("popcount|count", f"popcount({w}) on {cnt} ones -> {got}")
+        _wreck(c)
         return {"nontrivial": w >= 2 and two, "labels": ["popcount"]}
     if k in ("ha", "fa"):
         c = need(lib(cg.logic.half_adder if k == "ha" else cg.logic.full_adder), k, k)
@@ -204,6 +230,7 @@ def check(case, ctx):
             cn = "c" if k == "ha" else "cout"
             if _bit(val["s"], j) != tot & 1 or _bit(val[cn], j) != tot >> 1:
                 raise Violation(k + "|value", f"{k} on {tot} ones: s={_bit(val['s'], j)} c={_bit(val[cn], j)}")
+        _wreck(c)
         return {"nontrivial": True, "labels": [k]}
     if k == "clog2":
         for n in case["ns"]:
